@@ -37,7 +37,9 @@ CONSTANTS NFiles,     \* number of files
           MaxItems,   \* total number of statements
           MaxPerFile, \* statements per file
           Members,    \* member names, e.g. {"fa", "fb"}
-          EmitMin     \* print only workspaces with at least this many statements
+          EmitMin,    \* print only workspaces with at least this many statements
+          OneGlobal   \* TRUE: `G = {}` is executed at most once in the workspace (a global table created in two files is
+                      \* the subject of the known finding Dev_GlobalDefinedInTwoFilesSplit)
 
 VARIABLES files,  \* [1..NFiles -> Seq(items)]
           cur,    \* current file
@@ -86,7 +88,7 @@ DefLocal ==
 
 \* G = {}   (a second execution creates a second table under the same global name)
 DefGlobal ==
-    /\ More /\ ~Closed
+    /\ More /\ ~Closed /\ (OneGlobal => gdef = 0)
     /\ Add([k |-> "deftab", n |-> "G", scope |-> "global", tid |-> ntab + 1])
     /\ gdef' = ntab + 1
     /\ ntab' = ntab + 1
@@ -155,7 +157,11 @@ Resolve(h, fuel) ==
     ELSE IF h.k = "mod" /\ fuel > 0 THEN Resolve(ret[h.file], fuel - 1)
     ELSE 0
 
-Label(it) == IF "h" \in DOMAIN it THEN [it EXCEPT !.h = Resolve(it.h, NFiles)] ELSE it
+\* h becomes the resolved identity; hk keeps how the variable got its value ("tab": a table created in this file or the
+\* global's, "mod": a require, "none")
+Label(it) == IF "h" \in DOMAIN it
+             THEN [f \in DOMAIN it \cup {"hk"} |-> IF f = "hk" THEN it.h.k ELSE IF f = "h" THEN Resolve(it.h, NFiles) ELSE it[f]]
+             ELSE it
 Labelled == [f \in 1..NFiles |-> [i \in 1..Len(files[f]) |-> Label(files[f][i])]]
 
 \* model facts
